@@ -54,17 +54,16 @@ def impl(py):
                 "fresh_ticks": fticks, "fresh_texts": [ff(t) for t in fticks]}
     s = LinearScale().domain([py["a"], py["b"]])
     m = py["m"]
-    # another scale object is configured and used in between: scale objects share nothing
+    # another scale object, configured AFTER the observed one and asked for the same things with
+    # the same count first, nothing being constructed or reconfigured in between: scale objects
+    # share nothing (seed C13-f: a class-level memo keyed by the count only)
     _o = LinearScale().domain([3.3, 977.1]).range([5, 6])
-    list(_o.ticks(23))
-    _o.tickFormat(23)
-    _o.nice()
+    list(_o.ticks(m))
+    _o.tickFormat(m)
+    list(_o.ticks())
     ticks = [float(t) for t in s.ticks(m)]
-    # another scale object is configured and used in between: scale objects share nothing
-    _o2 = LinearScale().domain([3.3, 977.1]).range([5, 6])
-    list(_o2.ticks(23))
-    _o2.tickFormat(23)
-    _o2.nice()
+    list(_o.ticks(m))
+    _o.tickFormat(m)
     f = s.tickFormat(m)
     return {"ticks": ticks, "texts": [f(t) for t in ticks]}
 
